@@ -505,8 +505,10 @@ func applyPush(ctx Context, doc bsonkit.Doc, name, path string, v interface{}) e
 	// elements in place, so we record per-element changes (matching the
 	// pre-modifier behavior). Anything that can shift elements ($position not
 	// at end, $sort, $slice) records the whole array.
+	// A push that creates the array records the whole field: an element path
+	// like "a.0" cannot be applied to a document that has no "a" yet.
 	changes := ctx.Value.(*Changes)
-	if !hasSort && !hasSlice && insertAt == len(arr) {
+	if field != bsonkit.Missing && !hasSort && !hasSlice && insertAt == len(arr) {
 		startIdx := insertAt
 		for i, val := range values {
 			err := changes.Record(path+"."+strconv.Itoa(startIdx+i), val)
